@@ -72,7 +72,7 @@ def _split2(inner: str):
     return inner, ""
 
 
-def guard_literals(nf: NF, cfg, mi, node_id: int, drop_loops: bool = True) -> list[str]:
+def guard_literals(nf: NF, cfg, mi, node_id: int, drop_loops: bool = True, inline: bool = False) -> list[str]:
     """Canonical literals that hold whenever ``node_id`` executes (control dependence, aliases expanded, and() flattened).
 
     Comparison literals are oriented (Lt/LtE only, Eq/NotEq sorted by the NF engine); a False branch is negated semantically."""
@@ -89,7 +89,7 @@ def guard_literals(nf: NF, cfg, mi, node_id: int, drop_loops: bool = True) -> li
                 e = ast.parse(txt, mode="eval").body
             except SyntaxError:
                 raise AnalysisError(f"guard `{txt}` cannot be parsed")
-            c = nf.poly(e, sc, None).canon()
+            c = nf.poly(e, Scope(cfg, mi, {}, "guard"), b).canon() if inline else nf.poly(e, sc, None).canon()
             parts = _flatten_and(c) if truth else None
             if truth:
                 out += parts
@@ -120,7 +120,7 @@ def guard_literals(nf: NF, cfg, mi, node_id: int, drop_loops: bool = True) -> li
                 e = ast.parse(txt, mode="eval").body
             except SyntaxError:
                 continue
-            c = nf.poly(e, sc, None).canon()
+            c = nf.poly(e, Scope(cfg, mi, {}, "guard"), bn.id).canon() if inline else nf.poly(e, sc, None).canon()
             if truth:
                 out += _flatten_and(c)
             else:
@@ -180,3 +180,10 @@ def arg_of(call: ast.Call, pos: int, *names):
         if k.arg in names:
             return k.value
     return None
+
+
+def recv_canon(nf: NF, cfg, mi, node, call: ast.Call) -> str:
+    """Canonical receiver of a method call, local aliases resolved (`b = self.buffers[i]; b.add(..)` -> self.buffers[i])."""
+    if not isinstance(call.func, ast.Attribute):
+        return ""
+    return nf.poly(call.func.value, Scope(cfg, mi, {}, "recv"), node.id).canon()
